@@ -181,7 +181,7 @@ def prog_facts(p):
 
 def assemble(reqs, progs, cfg=None, sock=None, steps=None, epilogue=True, probe=False):
     """reqs: list of kwargs for build_request (1-based index assigned here); progs: list of programs."""
-    cfg = dict({"ka_ms": 5000, "head_ms": 5000, "disc_ms": 0, "half_closed": True, "wbuf": 0, "graceful": False, "probe": probe, "quiet": False, "mem": False, "maxchunk": 0, "qallow": 0},
+    cfg = dict({"ka_ms": 5000, "head_ms": 5000, "disc_ms": 0, "half_closed": True, "wbuf": 0, "graceful": False, "probe": probe, "quiet": False, "mem": False, "maxchunk": 0, "qallow": 0, "upgrade": False},
                **(cfg or {}))
     sock = dict({"budget": -1, "flush": "ready", "shutdown": "ready"}, **(sock or {}))
     wire, gt, ex, methods = [], [], {}, []
